@@ -48,6 +48,7 @@ type verifOp struct {
 	D    bool    `json:"d"`
 	Gi   int     `json:"gi"`
 	TTL  int     `json:"ttl"`
+	Go   bool    `json:"go"` // del / exec: issued from a goroutine of its own, locked to another OS thread
 }
 
 type verifCase struct {
@@ -78,7 +79,10 @@ const (
 	verifFaultMsg = "VERIFFAULT injected"
 )
 
-var errVerifNotFound = errors.New("verif: not found")
+var (
+	errVerifNotFound = errors.New("verif: not found")
+	errVerifDB       = errors.New("verif db failure")
+)
 
 // scripted rand.Source: Float64() of a rand.Rand over it yields U[i]/1024
 type verifSource struct {
@@ -105,6 +109,7 @@ type verifRedis struct {
 	s       *miniredis.Miniredis
 	mu      sync.Mutex
 	g, w, d bool
+	hook    server.Hook
 }
 
 func newVerifRedis() *verifRedis {
@@ -113,7 +118,7 @@ func newVerifRedis() *verifRedis {
 		panic(err)
 	}
 	r := &verifRedis{s: s}
-	s.Server().SetPreHook(func(c *server.Peer, cmd string, args ...string) bool {
+	r.hook = func(c *server.Peer, cmd string, args ...string) bool {
 		r.mu.Lock()
 		g, w, d := r.g, r.w, r.d
 		r.mu.Unlock()
@@ -135,7 +140,8 @@ func newVerifRedis() *verifRedis {
 			}
 		}
 		return false
-	})
+	}
+	s.Server().SetPreHook(r.hook)
 	return r
 }
 
@@ -143,6 +149,12 @@ func (r *verifRedis) setFaults(g, w, d bool) {
 	r.mu.Lock()
 	r.g, r.w, r.d = g, w, d
 	r.mu.Unlock()
+	if g && w && d {
+		// Redis down: every command fails, injected with miniredis' own SetError (it installs its pre-hook)
+		r.s.SetError(verifFaultMsg)
+	} else {
+		r.s.Server().SetPreHook(r.hook)
+	}
 }
 
 var (
@@ -505,6 +517,8 @@ func verifErr(err error) string {
 		return "nf"
 	case errors.Is(err, context.Canceled):
 		return "ctx"
+	case errors.Is(err, errVerifDB):
+		return "dberr"
 	case strings.Contains(err.Error(), verifFaultMsg):
 		return "cerr"
 	default:
@@ -636,10 +650,13 @@ func verifRunCase(c verifCase) any {
 		}
 		o := map[string]any{}
 		switch op.Op {
-		case "qrow":
+		case "qrow", "qrowe":
 			var row verifRow
 			err := r.cache.TakeCtx(ctx, &row, r.keyName([]any{"pk", float64(op.ID)}), func(v any) error {
 				r.dbq++
+				if op.Op == "qrowe" {
+					return errVerifDB // the database answers an error other than not-found
+				}
 				got, ok := r.db[op.ID]
 				if !ok {
 					return errVerifNotFound
@@ -693,12 +710,23 @@ func verifRunCase(c verifCase) any {
 			for _, k := range op.Keys {
 				ks = append(ks, r.keyName(k))
 			}
+			del := func() error { return r.cache.DelCtx(ctx, ks...) }
+			if op.Go {
+				del = func() error {
+					ch := make(chan error)
+					go func() {
+						runtime.LockOSThread() // not released: the thread ends with the goroutine
+						ch <- r.cache.DelCtx(ctx, ks...)
+					}()
+					return <-ch
+				}
+			}
 			if r.real {
 				before := verifWheelSize(timingWheel)
-				o["r"] = verifErr(r.cache.DelCtx(ctx, ks...))
+				o["r"] = verifErr(del())
 				r.noteArms(before)
 			} else {
-				o["r"] = verifErr(r.cache.DelCtx(ctx, ks...))
+				o["r"] = verifErr(del())
 				r.absorb()
 			}
 		case "set":
@@ -711,6 +739,11 @@ func verifRunCase(c verifCase) any {
 			o["r"] = verifErr(r.cache.SetCtx(ctx, r.keyName(op.Key), val))
 		case "adv":
 			r.advance(op.Dt)
+			o["r"] = "ok"
+		case "gc":
+			// pooled / per-P state of the packages under the cache (random sources, buffers) is dropped
+			runtime.GC()
+			runtime.GC()
 			o["r"] = "ok"
 		case "fault":
 			for i := 0; i < r.nn; i++ {
